@@ -69,7 +69,7 @@ impl<R> Reader<R> {
         ensures
             final(self).inv(),
             final(self).reader.faults() >= old(self).reader.faults(),
-            event_post(old(self).state, old(self).reader.remaining(), final(self).state, final(self).reader.remaining(), r,
+            event_post(old(self).state, old(self).reader.remaining(), old(self).reader.after_bom(), final(self).state, final(self).reader.remaining(), r,
                 final(self).reader.faults() > old(self).reader.faults()),
             // C03: progress, monotone positions, Eof is final
             continues(r) ==> measure(final(self).state, final(self).reader.remaining()) < measure(old(self).state, old(self).reader.remaining()),
@@ -89,6 +89,9 @@ impl<R> Reader<R> {
         let ghost f0 = self.reader.faults();
         let ghost mut gcur = self.state;
         let ghost mut grem = self.reader.remaining();
+        let ghost brem = self.reader.after_bom();
+        let ghost mut gbrem = self.reader.after_bom();
+        proof { self.reader.law_after_bom(); }
         {
         let event; loop
             invariant_except_break
@@ -106,13 +109,13 @@ impl<R> Reader<R> {
                 self.reader.remaining().len() <= rem.len(),
                 !(pre.state is Done) ==> self.state.offset + self.reader.remaining().len() <= pre.offset + rem.len(),
                 forall|post: ReaderState, rem2: Seq<u8>, r: core::result::Result<Event<'i>, Error>, fault: bool|
-                    #[trigger] event_post(self.state, self.reader.remaining(), post, rem2, r, fault) ==> event_post(pre, rem, post, rem2, r, fault),
+                    #[trigger] event_post(self.state, self.reader.remaining(), self.reader.after_bom(), post, rem2, r, fault) ==> event_post(pre, rem, brem, post, rem2, r, fault),
             ensures
                 self.state.wf(), self.state.config == pre.config,
                 self.reader.faults() >= f0,
                 forall|post: ReaderState, rem2: Seq<u8>, r: core::result::Result<Event<'i>, Error>, fault: bool|
-                    #[trigger] event_post(gcur, grem, post, rem2, r, fault) ==> event_post(pre, rem, post, rem2, r, fault),
-                arm_post(gcur, grem, self.state, self.reader.remaining(), event, self.reader.faults() > f0),
+                    #[trigger] event_post(gcur, grem, gbrem, post, rem2, r, fault) ==> event_post(pre, rem, brem, post, rem2, r, fault),
+                arm_post(gcur, grem, gbrem, self.state, self.reader.remaining(), event, self.reader.faults() > f0),
                 self.state.state is InsideMarkup ==> self.state.offset >= 1 && self.state.last_error_offset <= self.state.offset - 1,
                 self.state.state is InsideEmpty ==> self.state.stack().len() > 0,
                 self.state.last_error_offset <= self.state.offset,
@@ -125,31 +128,31 @@ impl<R> Reader<R> {
                 self.state.state is InsideMarkup ==> self.state.offset >= pre.offset + 1 && !(pre.state is InsideMarkup),
             decreases (match self.state.state { ParseState::Init => 2int, ParseState::InsideText => 1int, _ => 0int })
         {
-            proof { gcur = self.state; grem = self.reader.remaining(); }
+            proof { gcur = self.state; grem = self.reader.remaining(); gbrem = self.reader.after_bom(); self.reader.law_after_bom(); }
             { event = match self.state.state {
                 ParseState::Init => {
 
                     // Removes UTF-8 BOM if it is present
                     match self.reader.remove_utf8_bom() { Ok(v__) => v__, Err(e__) => { proof {
                         assert forall|r: core::result::Result<Event<'i>, Error>| (r matches Err(Error::Io(_))) implies
-                            event_post(pre, rem, self.state, self.reader.remaining(), r, true) by {
+                            event_post(pre, rem, brem, self.state, self.reader.remaining(), r, true) by {
                             assert(io_fail(gcur, grem, self.state, r, true)) by { reveal(io_fail); }
-                            assert(event_post(gcur, grem, self.state, self.reader.remaining(), r, true)) by { reveal(event_post); }
+                            assert(event_post(gcur, grem, gbrem, self.state, self.reader.remaining(), r, true)) by { reveal(event_post); }
                         }
                     } return Err(From::from(e__)) } };
 
                     self.state.state = ParseState::InsideText;
                     proof {
                         assert forall|post: ReaderState, rem2: Seq<u8>, r: core::result::Result<Event<'i>, Error>, fault: bool|
-                            #[trigger] event_post(self.state, self.reader.remaining(), post, rem2, r, fault) implies event_post(pre, rem, post, rem2, r, fault) by {
+                            #[trigger] event_post(self.state, self.reader.remaining(), self.reader.after_bom(), post, rem2, r, fault) implies event_post(pre, rem, brem, post, rem2, r, fault) by {
                             reveal(event_post);
                             if io_fail(self.state, self.reader.remaining(), post, r, fault) {
                                 assert(io_fail(gcur, grem, post, r, fault)) by { reveal(io_fail); }
                             } else {
-                                let m = choose|m: ReaderState| #[trigger] arm_post(self.state, self.reader.remaining(), m, rem2, r, fault) && post == finish(m, r);
-                                assert(arm_post(gcur, grem, m, rem2, r, fault)) by { reveal(arm_post); }
+                                let m = choose|m: ReaderState| #[trigger] arm_post(self.state, self.reader.remaining(), self.reader.after_bom(), m, rem2, r, fault) && post == finish(m, r);
+                                assert(arm_post(gcur, grem, gbrem, m, rem2, r, fault)) by { reveal(arm_post); }
                             }
-                            assert(event_post(gcur, grem, post, rem2, r, fault));
+                            assert(event_post(gcur, grem, gbrem, post, rem2, r, fault));
                         }
                     }
                     continue;
@@ -158,9 +161,9 @@ impl<R> Reader<R> {
                     if self.state.config.trim_text_start {
                         match self.reader.skip_whitespace(&mut self.state.offset) { Ok(v__) => v__, Err(e__) => { proof {
                         assert forall|r: core::result::Result<Event<'i>, Error>| (r matches Err(Error::Io(_))) implies
-                            event_post(pre, rem, self.state, self.reader.remaining(), r, true) by {
+                            event_post(pre, rem, brem, self.state, self.reader.remaining(), r, true) by {
                             assert(io_fail(gcur, grem, self.state, r, true)) by { reveal(io_fail); }
-                            assert(event_post(gcur, grem, self.state, self.reader.remaining(), r, true)) by { reveal(event_post); }
+                            assert(event_post(gcur, grem, gbrem, self.state, self.reader.remaining(), r, true)) by { reveal(event_post); }
                         }
                     } return Err(From::from(e__)) } };
                     }
@@ -178,18 +181,18 @@ impl<R> Reader<R> {
                             proof {
                                 assert forall|i: int| first_lt(r1, i) implies i == 0 by { if i > 0 { assert(r1[0] != 0x3c); } }
                                 assert forall|post: ReaderState, rem2: Seq<u8>, r: core::result::Result<Event<'i>, Error>, fault: bool|
-                                    #[trigger] event_post(self.state, self.reader.remaining(), post, rem2, r, fault) implies event_post(pre, rem, post, rem2, r, fault) by {
+                                    #[trigger] event_post(self.state, self.reader.remaining(), self.reader.after_bom(), post, rem2, r, fault) implies event_post(pre, rem, brem, post, rem2, r, fault) by {
                                     reveal(event_post);
                                     if io_fail(self.state, self.reader.remaining(), post, r, fault) {
                                         assert(io_fail(gcur, grem, post, r, fault)) by { reveal(io_fail); }
                                     } else {
-                                        let m = choose|m: ReaderState| #[trigger] arm_post(self.state, self.reader.remaining(), m, rem2, r, fault) && post == finish(m, r);
+                                        let m = choose|m: ReaderState| #[trigger] arm_post(self.state, self.reader.remaining(), self.reader.after_bom(), m, rem2, r, fault) && post == finish(m, r);
                                         assert(markup_post(self.state, self.reader.remaining(), m, rem2, r, fault)) by { reveal(arm_post); }
                                         assert(!no_lt(r1));
                                         assert(text_post(gcur, grem, m, rem2, r, fault)) by { reveal(text_post); }
-                                        assert(arm_post(gcur, grem, m, rem2, r, fault)) by { reveal(arm_post); }
+                                        assert(arm_post(gcur, grem, gbrem, m, rem2, r, fault)) by { reveal(arm_post); }
                                     }
-                                    assert(event_post(gcur, grem, post, rem2, r, fault));
+                                    assert(event_post(gcur, grem, gbrem, post, rem2, r, fault));
                                 }
                             }
                             continue;
@@ -226,7 +229,7 @@ impl<R> Reader<R> {
                 ParseState::InsideEmpty => Ok(Event::End(self.state.close_expanded_empty())),
                 ParseState::Done => Ok(Event::Eof),
             }; proof {
-                assert(arm_post(gcur, grem, self.state, self.reader.remaining(), event, self.reader.faults() > f0)) by {
+                assert(arm_post(gcur, grem, gbrem, self.state, self.reader.remaining(), event, self.reader.faults() > f0)) by {
                     reveal(arm_post); reveal(text_post); reveal(io_fail);
                 }
                 assert(self.state.state is InsideMarkup ==> self.state.offset >= 1 && self.state.last_error_offset <= self.state.offset - 1) by {
@@ -264,7 +267,7 @@ impl<R> Reader<R> {
         let ghost m = self.state;
         let ghost rem2 = self.reader.remaining();
         let ghost fault = self.reader.faults() > f0;
-        assert(arm_post(gcur, grem, m, rem2, event, fault));
+        assert(arm_post(gcur, grem, gbrem, m, rem2, event, fault));
         match event {
             // #513: In case of ill-formed errors we already consume the wrong data
             // and change the state. We can continue parsing if we wish
@@ -275,8 +278,8 @@ impl<R> Reader<R> {
         proof {
             assert(self.state == finish(m, event));
             assert(self.reader.remaining() == rem2 && fault == (self.reader.faults() > f0));
-            assert(arm_post(gcur, grem, m, rem2, event, fault) && self.state == finish(m, event));
-            assert(event_post(gcur, grem, self.state, rem2, event, fault)) by { reveal(event_post); }
+            assert(arm_post(gcur, grem, gbrem, m, rem2, event, fault) && self.state == finish(m, event));
+            assert(event_post(gcur, grem, gbrem, self.state, rem2, event, fault)) by { reveal(event_post); }
         }
         event
     }
@@ -406,7 +409,7 @@ impl<'a> Reader<&'a [u8]> {
         ensures
             final(self).inv(),
             final(self).reader.faults() >= old(self).reader.faults(),
-            event_post(old(self).state, old(self).reader.remaining(), final(self).state, final(self).reader.remaining(), r,
+            event_post(old(self).state, old(self).reader.remaining(), old(self).reader.after_bom(), final(self).state, final(self).reader.remaining(), r,
                 final(self).reader.faults() > old(self).reader.faults()),
             continues(r) ==> measure(final(self).state, final(self).reader.remaining()) < measure(old(self).state, old(self).reader.remaining()),
             final(self).bufpos() >= old(self).bufpos(),
@@ -572,7 +575,7 @@ impl<R: BufRead> Reader<R> {
         ensures
             final(self).inv(),
             final(self).reader.faults() >= old(self).reader.faults(),
-            event_post(old(self).state, old(self).reader.remaining(), final(self).state, final(self).reader.remaining(), r,
+            event_post(old(self).state, old(self).reader.remaining(), old(self).reader.after_bom(), final(self).state, final(self).reader.remaining(), r,
                 final(self).reader.faults() > old(self).reader.faults()),
             continues(r) ==> measure(final(self).state, final(self).reader.remaining()) < measure(old(self).state, old(self).reader.remaining()),
             final(self).bufpos() >= old(self).bufpos(),
